@@ -58,6 +58,7 @@ void _ZNK14QMessageLogger7warningEPKcz(char *self, char *fmt, ...) { }
 #ifndef VP_CFG3
 #define VP_CFG3 0
 #endif
+uint32_t vp_never(void) { return 0; }
 uint32_t vp_cfg0(void) { return VP_CFG0; }   /* per-instance constants (cdefs) visible to the C++ harness */
 uint32_t vp_cfg1(void) { return VP_CFG1; }
 uint32_t vp_cfg2(void) { return VP_CFG2; }
